@@ -503,6 +503,97 @@ def run(chk):
             if not canon_equal(got, want):
                 chk.violation(r_op, "formula:" + name, "OPERATE %s computes %s; the documented operation is %s" % (name, got, want), f["file"], rets[0]["l"])
 
+    # ---- C12.dispatch: which handler a keyword of the property sections reaches
+    r_dp = chk.rule("C12.dispatch", "FieldProps::handle_keyword sends each class of operation keyword to its own handler: ADD/EQUALS/MAXVALUE/MINVALUE/MULTIPLY (oper_keywords) -> handle_operation, OPERATE -> handle_OPERATE, the region variants (region_oper_keywords) -> handle_region_operation, BOX/ENDBOX -> handle_box_keyword, COPY/COPYREG -> handle_COPY (region flag set exactly for COPYREG); membership is tested with count(name) == 1 / name == keywordName", floor=5)
+    hk = [f for f in fns if f["n"] == "handle_keyword" and (f.get("cls") or "").endswith("FieldProps")]
+    if len(hk) != 1:
+        raise core.AnalysisBroken("FieldProps::handle_keyword: %d definitions" % len(hk))
+    hk = hk[0]
+    WANT_D = {"oper_keywords": "handle_operation", "OPERATE": "handle_OPERATE", "region_oper_keywords": "handle_region_operation", "box_keywords": "handle_box_keyword", "COPY+COPYREG": "handle_COPY"}
+    chain = []
+    node = [n for n in stmt_list(hk["body"]) if n["k"] == "If"]
+    cur = node[0] if node else None
+    while cur is not None and cur.get("k") == "If":
+        chain.append(cur)
+        cur = cur.get("else")
+    got_d = {}
+    for iff in chain:
+        c = strip(iff["cond"])
+        txt = show(c).replace(" ", "")
+        sets = [x["n"] for x in walk(c) if x["k"] in ("Ref", "Mem") and x.get("n", "").endswith("_keywords")]
+        kws = sorted({(x.get("q") or "").split("::")[-2] for x in walk(c) if x["k"] == "Ref" and (x.get("q") or "").endswith("::keywordName")})
+        pos = all(y.get("op") == "==" for y in walk(c) if y.get("k") in ("Bin", "OpCall") and y.get("op") in ("==", "!=")) and not any(y.get("k") == "Un" and y.get("op") == "!" for y in walk(c))
+        one = all(strip((y.get("c") or y.get("a"))[1]).get("v") == 1 for y in walk(c) if y.get("k") in ("Bin",) and y.get("op") == "==" and any(meth(z)[0] == "count" for z in walk(y)))
+        cls_ = sets[0] if len(sets) == 1 and not kws else "+".join(kws) if kws and not sets else "?"
+        calls_ = [x.get("m") or (x.get("fn") or "").split("::")[-1] for x in walk(iff["then"]) if x["k"] in ("MCall", "Call") and ((x.get("m") or "").startswith("handle_") or (x.get("fn") or "").split("::")[-1].startswith("handle_"))]
+        got_d[cls_] = (calls_, pos and one, iff)
+    for cls_, want in WANT_D.items():
+        g = got_d.get(cls_)
+        chk.instance(r_dp, cls_, sample=dict(keyword_class=cls_, handler=g[0] if g else None, positive_test=g[1] if g else None))
+        if not g or g[0] != [want] or not g[1]:
+            chk.violation(r_dp, cls_, "handle_keyword: keywords of class %s must reach %s through a positive membership test; found %s%s: the operation is applied by another handler or not at all" % (cls_, want, g[0] if g else "no such branch", "" if not g or g[1] else " under a negated / altered test"), hk["file"], g[2]["l"] if g else hk["l"])
+    cp = got_d.get("COPY+COPYREG")
+    if cp:
+        calls3 = [x for x in walk(cp[2]["then"]) if (x.get("m") or (x.get("fn") or "").split("::")[-1]) == "handle_COPY"]
+        flag = show(strip(calls3[0]["a"][-1])).replace(" ", "") if calls3 and calls3[0].get("a") else ""
+        if "COPYREG::keywordName" not in flag or "==" not in flag:
+            chk.violation(r_dp, "COPY:flag", "handle_COPY's region flag must be `name == COPYREG`: found %s" % flag, hk["file"], cp[2]["l"])
+
+    # ---- C12.region: which cells a region operation touches
+    r_rg = chk.rule("C12.region", "FieldProps::region_index lists exactly the ACTIVE cells whose region array holds the requested value: it walks all cells, advances the active index once per active cell only, tests the region array at the active index with ==, and records (global, active, global)", floor=1)
+    ri = [f for f in fns if f["n"] == "region_index" and (f.get("cls") or "").endswith("FieldProps")]
+    if len(ri) != 1:
+        raise core.AnalysisBroken("FieldProps::region_index: %d definitions" % len(ri))
+    ri = ri[0]
+    lps = [n for n in stmt_list(ri["body"]) if n["k"] == "For"]
+    okr = False
+    det = {}
+    if len(lps) == 1:
+        lp = lps[0]
+        g_ = [v["n"] for d in walk(lp.get("init") or {}) if d["k"] == "Decl" for v in d["vars"]][0]
+        outer = [n for n in stmt_list(lp["body"]) if n["k"] == "If"]
+        if len(outer) == 1:
+            oc = show(strip(outer[0]["cond"])).replace(" ", "")
+            th = stmt_list(outer[0]["then"])
+            inner = [n for n in th if n["k"] == "If"]
+            incs = [n for n in th if (n["k"] == "Bin" and n.get("op") == "+=" and strip(n["c"][1]).get("v") == 1) or (n["k"] == "Un" and "++" in (n.get("op") or ""))]
+            a_ = strip(incs[0]["c"][0]).get("n") if incs else None
+            ic = show(strip(inner[0]["cond"])).replace(" ", "") if inner else ""
+            rv = ri["params"][1]["n"]
+            emp = [show(x).replace(" ", "") for x in walk(inner[0]["then"]) if meth(x)[0] in ("emplace_back", "push_back")] if inner else []
+            det = dict(active_test=oc, region_test=ic, record=emp, counter=a_)
+            okr = oc in ("(this.m_actnum[%s]!=0)" % g_, "(this.m_actnum[%s]>0)" % g_) and len(inner) == 1 and len(incs) == 1 and a_ is not None \
+                and ic == "(region.data[%s]==%s)" % (a_, rv) and len(emp) == 1 and emp[0].endswith("emplace_back(%s,%s,%s)" % (g_, a_, g_)) \
+                and th.index(inner[0]) < th.index(incs[0]) and show(strip(lp["cond"])).replace(" ", "") == "(%s<this.m_actnum.size())" % g_
+    chk.instance(r_rg, "region_index", sample=det)
+    if not okr:
+        chk.violation(r_rg, "region_index", "FieldProps::region_index no longer selects exactly the active cells whose region value equals the requested one with a correctly advancing active index (%s): a region operation touches other cells, or values of other cells" % det, ri["file"], ri["l"])
+
+    # ---- C12.bounds: the box's inclusive bounds per axis
+    r_bd = chk.rule("C12.bounds", "Box: lower(d) = offset[d], upper(d) = offset[d] + dims[d] - 1 (inclusive), and I1/I2, J1/J2, K1/K2 are lower/upper of axis 0, 1, 2", floor=8)
+    bx = chk.facts(["opm/input/eclipse/EclipseState/Grid/Box.cpp"])
+    want_b = {"lower": "this.m_offset[%s]", "upper": "((this.m_offset[%s] + this.m_dims[%s]) - 1)"}
+    for nm_, form in want_b.items():
+        f = [g for g in bx.fns if g["q"] == "Opm::Box::" + nm_ and g.get("body")]
+        if len(f) != 1:
+            raise core.AnalysisBroken("Box::%s not found" % nm_)
+        f = f[0]
+        pn_ = f["params"][0]["n"]
+        rets = [show(strip(r_["e"])) for r_ in walk(f["body"]) if r_["k"] == "Return" and r_.get("e") is not None]
+        want = form % ((pn_,) * form.count("%s"))
+        alt = "((this.m_dims[%s] + this.m_offset[%s]) - 1)" % (pn_, pn_)
+        chk.instance(r_bd, nm_, sample=dict(returns=rets))
+        if rets not in ([want], [alt]):
+            chk.violation(r_bd, nm_, "Box::%s(d) returns %s; it must be %s" % (nm_, rets, want), f["file"], f["l"])
+    for nm_, (fn_, ax) in {"I1": ("lower", 0), "I2": ("upper", 0), "J1": ("lower", 1), "J2": ("upper", 1), "K1": ("lower", 2), "K2": ("upper", 2)}.items():
+        f = [g for g in bx.fns if g["q"] == "Opm::Box::" + nm_ and g.get("body")]
+        if len(f) != 1:
+            raise core.AnalysisBroken("Box::%s not found" % nm_)
+        rets = [show(strip(r_["e"])) for r_ in walk(f[0]["body"]) if r_["k"] == "Return" and r_.get("e") is not None]
+        chk.instance(r_bd, nm_, sample=dict(returns=rets))
+        if rets != ["this.%s(%d)" % (fn_, ax)]:
+            chk.violation(r_bd, nm_, "Box::%s() returns %s; it is %s(%d)" % (nm_, rets, fn_, ax), f[0]["file"], f[0]["l"])
+
     # ---- C12.assign: which deck entries overwrite which cells in a direct assignment
     r_as = chk.rule("C12.assign", "assign_deck (direct assignment of an array keyword): evaluated over all (status of the deck entry, status of the cell) pairs, the condition that guards the write holds for every explicit deck value and, for a defaulted entry (n*), never for a cell that already has a value - in the per-active-cell loop and in the global-storage loop alike (earlier ADD/MULTIPLY/OPERATE results and distributed top-layer values survive a later assignment that defaults those cells)", floor=2)
     vs = chk.facts([FP], files_re=r"^/repo/opm/input/eclipse/Deck/value_status\.hpp$")
